@@ -286,7 +286,19 @@ func Select(hasDefault bool, cases ...Case) int {
 		if aborting {
 			panic(abortSentinel)
 		}
-		panic("sched.Select outside exploration")
+		// instrumented code used outside an exploration (a harness computing an expectation): the first ready case,
+		// else the default, else wait - the real operation follows in the caller
+		for {
+			for i := range cases {
+				if chanReady(cases[i]) {
+					return i
+				}
+			}
+			if hasDefault {
+				return -1
+			}
+			runtime.Gosched()
+		}
 	}
 	if len(cases) > maxCases {
 		fatal("select with too many cases")
